@@ -1,5 +1,7 @@
 import Rare.Proofs.C15NotifyLive
 import Rare.Proofs.C15PollLive
+import Rare.Proofs.C15PollPlain
+import Rare.Proofs.C15Drained
 import Rare.Model.C15Skeleton
 import Rare.Gen.C15
 /-!
@@ -200,15 +202,45 @@ theorem plain_stream_is_prefix (c0 : Option (List β)) (tail : Bool) {s : NSt β
   ⟨(ninv_reach (capW_ok false) (capD_ok false) c0 tail hr).core.deliv,
    (ninv_reach (capW_ok false) (capD_ok false) c0 tail hr).incr⟩
 
-/-- plain_ends_after_removal (poll), partial: the polling reader can end the stream only by a `Stat`
-    that fails, it never blocks (`poll_never_blocks`), and when it is about to `Stat` while the file is
-    absent the stream ends.  Missing: the measure argument that it gets to that `Stat` (at most
-    `ReadAttempts` empty reads after the last byte); a file re-created before the poller looks is not
-    noticed by plain polling follow (it keeps the old descriptor: `Stat` succeeds) – expected. -/
-theorem plain_ends_after_removal_poll_partial (c0 : Option (List β)) (tail : Bool) {s : PSt β}
-    (_hr : PReach (srcP false) (pinit c0 tail) s) (hc : s.rd = .check) (hp : s.fs.path = none) :
-    ∃ s', PStep (srcP false) .reader s s' ∧ s'.rd = .ended :=
-  ⟨_, .statGone s hc rfl hp, rfl⟩
+/-- **remove-after-drain.** Plain notify follow: if the reader had delivered everything when the file
+    was removed (no unread bytes at the moment of the removal), then in every state reachable
+    afterwards – in particular when the stream has ended – the delivered stream is exactly the whole
+    content of the file after the start position, whatever is created or appended at the path later. -/
+theorem plain_delivers_all_when_removed_after_drain (c0 : List β) (tail : Bool) {s s2 : NSt β}
+    (hr : NReach (srcN false) (ninit (some c0) tail) s) (hrm : s.removes = 0)
+    (hdr : ∀ h, s.f = some h → unread s.fs h = [])
+    (hr2 : NReach (srcN false)
+      { s with fs := s.fs.remove, evq := s.evq ++ [.remove], removes := s.removes + 1 } s2) :
+    s2.delivered = (s.fs.content 0).drop (start0 (some c0) tail) := by
+  have hi := ninv_reach (capW_ok false) (capD_ok false) (some c0) tail hr
+  obtain ⟨h1, h2, p, h3⟩ := hi.inPlace rfl hrm
+  have hs := hi.strong ⟨0, start0 (some c0) tail, p⟩ (by simp [h3])
+  have hu := hdr _ h3
+  simp only [unread, List.drop_eq_nil_iff] at hu
+  have hp : p = (s.fs.content 0).length := by simp only at hs; omega
+  subst hp
+  have hd1 : Drained (s.fs.content 0) (start0 (some c0) tail)
+      { s with fs := s.fs.remove, evq := s.evq ++ [.remove], removes := s.removes + 1 } :=
+    ⟨rfl, by simp [h1, h3], by simp [FS.remove], hi.core.pathLt 0 h2, by intro i hi'; cases hi'⟩
+  have hd2 := drained_reach rfl hd1 hr2
+  have hi2 := ninv_reach (capW_ok false) (capD_ok false) (some c0) tail
+    (NReach.trans' (.step hr (.remove s 0 h2)) hr2)
+  have := hi2.core.deliv
+  rw [hd2.handles] at this
+  rw [this]
+  simp only [segments, List.flatMap_cons, List.flatMap_nil, List.append_nil, hd2.content, extract]
+  exact List.take_of_length_le (by simp)
+
+/-- **plain_ends_after_removal (poll).** Plain polling follow: while the path is empty and the writer
+    is silent, the reader delivers what is left in the old file, does its `ReadAttempts` empty reads,
+    `Stat`s and returns EOF (some run – and, the reader being deterministic up to the size of each
+    read, every run – ends the stream).  A file re-created before the poller looks is not noticed by
+    plain polling follow (`Stat` succeeds, the old descriptor is kept): the hypothesis `path = none`
+    is the "file stays away" part of the property. -/
+theorem plain_ends_after_removal_poll (c0 : Option (List β)) (tail : Bool) {s : PSt β}
+    (hr : PReach (srcP false) (pinit c0 tail) s) (hp : s.fs.path = none) :
+    ∃ s', PSysReach (srcP false) s s' ∧ s'.rd = .ended :=
+  poll_plain_ends_aux rfl _ s (Nat.le_refl _) (pinv_reach (cfg := srcP false) c0 tail hr) hp
 
 /-! ## re-open follow -/
 
